@@ -70,9 +70,9 @@ CHECKS = {
         note='Resolver and tag-resolution totality are proved too (C14_resolve_total, C14_tag_resolution_total, C14_front_end_total: divergence exactly in the two syntactic classes cyclic import / untagged CHOICE cycle, fuel bounds explicit); the remaining to_rust body and to_protobuf are tie + process supervisor only; non-ASCII char classification outside the model; known findings F14-1, F14-2.',
         design="6 (C14)"),
     "C17": dict(
-        technique='Coq proof of the protobuf round trip by induction over the nested type universe, for both writer back ends + differential correspondence on a 22-type zoo',
+        technique='Coq proof of the protobuf round trip by induction over the nested type universe, for both writer back ends + differential correspondence on a 35-type zoo (incl. all-optional nested messages, DEFAULT components, extensible INTEGERs, lists of NULL)',
         text="C17_roundtrip: for every well-formed type and value outside Known_C17 (CHOICE with NULL or list alternative, list of lists, list of NULL, BitVec with excess bytes) pwrite succeeds and pread returns a protobuf-equal value; C17_backends_agree: the slice writer produces the Vec writer's bytes or fails exactly when the capacity is short, for every type/value/capacity; primitive round trips (varint/zigzag/tag/number) for all u64/i64; refuted witnesses per class. Zoo values through the real writer (Vec and fixed slice) and reader, judged by a Python ProtobufEq oracle and byte equality of the back ends.",
-        note='Encodings of 2^64 bytes or more excluded by hypothesis; sized excludes >= 2^29 fields and > 2^32 enum variants; known findings F17-1..7.',
+        note='Encodings of 2^64 bytes or more excluded by hypothesis; sized excludes >= 2^29 fields and > 2^32 enum variants; known findings F17-1..7; two defects of extensible INTEGERs found by the zoo were repaired (4788e65).',
         design="6 (C17)"),
     "C18": dict(
         technique="Coq reference proto3 decoder + proof that the writer's bytes decode under schema_of to the value's fields + protoc as second independent decoder, incl. a two-module schema with imports",
@@ -136,7 +136,9 @@ CHECKS = {
         text="Gallina model of slice.rs/buffer.rs on byte lists (bitwise copy, bulk copy with head/aligned/unaligned/tail branches, "
              "BitBuffer growth, Bits view) with theorems against the naive list-of-bool splice/slice specification (Props/C11.v); "
              "tied to /repo by differential execution that is exhaustive over (src_offset, dst_position, len) for 5-byte buffers "
-             "with the fill patterns the property names, random 64-byte buffers and BitBuffer/Bits operation sequences, each also "
+             "with the fill patterns the property names, random 64-byte buffers and BitBuffer/Bits operation sequences over the whole public "
+             "surface (every write_*/read_* override, with_write_position_at / with_read_position_at / with_max_read around any operation, "
+             "every constructor; Bits/Buffer.v with C11_reachable_inv, C11_buffer_reads_within_bit_len, C11_scope_write_in_place), each also "
              "judged by an independent Python list-of-bool oracle.",
         note="Trusted: Coq kernel + vm_compute, extraction + driver (cross-checked), Rust harness, Python oracle; Vec/slice indexing and "
              "copy_from_slice modelled as list operations; 64-bit usize.",
